@@ -113,6 +113,8 @@ def concretise(cell):
     raise ValueError(k)
 
 
+# parsable, but the evaluation of the builtin call fails inside TIFA (no positional argument reaches its definition)
+FAULT = "opts = {}\nprint(sorted(**opts))\nprint(reversed(**opts))\n"
 OTHER = "total = 0\nfor i in range(3):\n    total = total + i\nprint(total)\n"
 
 
@@ -160,11 +162,18 @@ def replay_chunk(cases, extra):
         except SyntaxError as e:
             out.append({"cell": cell, "kind": "harness", "detail": "generated program does not parse: %s" % e, "source": src})
             continue
-        progs = {"c": src, "d": OTHER}
+        progs = {"c": src, "d": OTHER, "x": FAULT}
         nlines = {k: len(v.split("\n")) for k, v in progs.items()}
+        first = {}
+        if any(h["op"] == "analyze" and h["p"] == "x" for h in rec["hist"]):
+            # reference result of the cell's program on a report of its own, before anything failed in this history
+            from pedal.core.report import Report
+            try:
+                first["c"] = issues_of(tifa_analysis(src, report=Report()))
+            except Exception:
+                first = {}
         clear_report()
         contextualize_report(src)
-        first = {}
         since_clear = {}
         for step, h in enumerate(rec["hist"], 1):
             if h["op"] == "clear":
@@ -181,6 +190,9 @@ def replay_chunk(cases, extra):
                 break
             n1 = len(R.feedback) + len(R.ignored_feedback)
             iss = issues_of(res)
+            if p == "x" and res.success:
+                out.append({"cell": cell, "kind": "harness", "step": step, "detail": "the fault program was analysed successfully; it no longer injects a failure", "source": progs[p]})
+                break
             if p == "c" and cell["k"] != "exotic" and not res.success:
                 out.append({"cell": cell, "kind": "incomplete", "step": step, "detail": repr(res.error)[:200], "source": progs[p]})
                 break
